@@ -34,11 +34,16 @@ def generate(chk, limit=None):
     for shape in ("gena", "genb"):
         gen = vlib.tlc_generate(MODULE, "Handshake13F.%s.%s.cfg" % (shape, chk.tier), timeout=2400)
         chk.add_tlc("13f." + shape, gen)
-        for g in gen.printed:
-            k = json.dumps([(x["act"], x["dir"], x["pos"], x["name"]) for x in g["steps"]])
+        printed = gen.printed
+        gen.printed = []
+        if limit and len(printed) > 4 * limit:      # keep memory bounded: thin out before de-duplicating
+            printed = random.Random(chk.seed + len(out)).sample(printed, 4 * limit)
+        for g in printed:
+            k = hash(json.dumps([(x["act"], x["dir"], x["pos"], x["name"]) for x in g["steps"]]))
             if k not in seen:
                 seen.add(k)
                 out.append(g)
+        del printed
     if len(out) < 1000:
         raise vlib.Inconclusive("too few fragmented-flight scripts (%d)" % len(out))
     if limit and len(out) > limit:
